@@ -118,9 +118,13 @@ def run_skeletons(ck, types, exe_model, label):
         ck.obligation("impl-run:c02:" + label, "internal", False, "rc=%s %s" % (rc, err))
         return
     parsed, idx = [], []
+    h2_bad = [srcs[i] for i, line in enumerate(impl) if line.startswith("T ") and not line.endswith("\tH 1")]
+    ck.obligation("hook-H2-effective:" + label, "internal", not h2_bad,
+                  "RuntimeContract::from_static_type gives the static contract with H2 off and the full contract with H2 on, for every generated type"
+                  if not h2_bad else "from_static_type does not follow the H2 toggle on " + h2_bad[0])
     for i, line in enumerate(impl):
         f = line.split("\t")
-        if len(f) == 3 and f[0].startswith("T "):
+        if len(f) == 4 and f[0].startswith("T "):
             parsed.append(f[0][2:])
             idx.append(i)
         else:
@@ -292,6 +296,10 @@ def run_behaviour(ck, cases, exe_model, label):
             elif exp is None and cls is not None:
                 ck.violation("spurious-error-on-respecting-use:" + kind,
                              "`%s` gives %s although every value respects the annotation" % (prog[:220], got_d[:80]), replay)
+                violated = True
+            elif exp == "Blame+" and cls is None:
+                ck.violation("annotation-not-enforced-on-typed-side:" + kind,
+                             "`%s` succeeds although a value crossing a contract/annotation is not in its type" % prog[:220], replay)
                 violated = True
             elif exp == "Blame+" and cls == "Blame-":
                 ck.violation("wrong-blame-polarity:" + kind,
